@@ -280,7 +280,7 @@ func (c01) Gen(seed int64, tier string, emit func(any)) {
 	// exhaustive: every schedule of length L over two threads, a few tiny program pairs
 	L := 10
 	if tier == "thorough" {
-		L = 13
+		L = 12
 	}
 	pairs := [][2][]strmOp{
 		{{c01K("open"), c01W("ab"), c01K("close")}, {c01R(1), c01R(4)}},
@@ -303,7 +303,7 @@ func (c01) Gen(seed int64, tier string, emit func(any)) {
 	r := rand.New(rand.NewSource(seed))
 	nctl, nfree, nbig := 1500, 60, 3
 	if tier == "thorough" {
-		nctl, nfree, nbig = 15000, 600, 12
+		nctl, nfree, nbig = 8000, 400, 12
 	}
 	for i := 0; i < nctl; i++ {
 		emit(c01RandCtl(r, tier))
